@@ -27,7 +27,7 @@ type modelProc struct {
 
 // the reference is a pure function with a depth bound (fuel) but no step bound: a program with nested
 // unbounded loops can keep it busy for very long.  Such a case is abandoned (and not registered).
-const modelDeadline = 3 * time.Second
+const modelDeadline = 8 * time.Second
 
 func modelPath() string {
 	if p := os.Getenv("C01_MODEL"); p != "" {
